@@ -34,13 +34,25 @@ HARNESSES = {
     'enc_def_bitsequence': (True, 'none (all u32 x u32)', ['derived Encode of TypeDef / TypeDefBitSequence'], 2400, 14),
     'enc_def_tuple': (False, 'fixed shape (2 members), ids symbolic', ['derived Encode of TypeDef / TypeDefTuple'], 1200, 14),
     'enc_field_a': (False, 'fixed shape (name, no type name, no docs), id symbolic', ['derived Encode of Field'], 1200, 14),
-    # stand-ins for functions left external in the Verus units
+    # C06 / C07 / C14 decode side: the dependency's scalar decoders (assumption CODEC) and the derived Decode of the leaf types, every input
+    'dec_compact_u32_all_inputs': (True, 'none (every input of <= 6 bytes)', ['parity-scale-codec Compact<u32>::decode (assumed contract CODEC: sound, canonical, complete)'], 1200, 14),
+    'dec_symbol_all_inputs': (True, 'none (every input of <= 6 bytes)', ['derived Decode of UntrackedSymbol (#[codec(compact)] id)'], 1200, 14),
+    'dec_primitive_all_inputs': (True, 'none (every input of <= 2 bytes)', ['derived Decode of TypeDefPrimitive'], 900, 14),
+    'dec_option_symbol_all_inputs': (True, 'none (every input of <= 7 bytes)', ['parity-scale-codec Option<T>::decode (assumed contract CODEC) over the derived Decode of UntrackedSymbol'], 1200, 14),
+    'dec_bitsequence_all_inputs': (True, 'none (every input of <= 11 bytes)', ['derived Decode of TypeDefBitSequence (store id, then order id)'], 2400, 14),
+    'dec_array_all_inputs': (True, 'none (every input of <= 10 bytes)', ['derived Decode of TypeDefArray (u32 LE, compact id)'], 1800, 14),
+    # cross-checks of functions that used to be external in the Verus units (now verified in the loop form of rule R20)
     'builder_new_is_empty': (True, 'none (no inputs)', ['src/portable.rs PortableRegistryBuilder::new'], 600, 14),
     'map_into_portable_in_order': (False, '<= 3 elements', ['src/registry.rs Registry::map_into_portable'], 1200, 14),
     # cross-checks of contracts ASSUMED on std functions in the Verus units
     'std_u8_ascii_classes': (True, 'none (all u8)', ['core u8::is_ascii_lowercase / is_ascii_uppercase / is_ascii_digit (assumed contract A11)'], 600, 14),
     'std_strip_prefix_small': (False, 'ASCII strings of length <= 6, pattern "r#"', ['core str::strip_prefix (assumed contract A11)'], 1200, 14),
     'std_slice_iter_small': (False, 'slices of <= 5 bytes', ['core slice::Iter position / last, <[T]>::split_last (assumed contracts A11)'], 1200, 14),
+    'std_map_collect_is_the_loop': (False, '<= 3 elements, closure mutating captured state', ['core Iterator::map + Vec: FromIterator (assumption A12 / rule R20 a)'], 1200, 14),
+    'std_enumerate_collect_is_the_loop': (False, '<= 3 elements', ['core Enumerate + Map + Vec: FromIterator (assumption A12 / rule R20 b)'], 1200, 14),
+    'std_filter_collect_is_the_loop': (False, '<= 3 elements', ['core Filter + Vec: FromIterator (assumption A12 / rule R20 c)'], 1200, 14),
+    'std_mem_replace_u32': (True, 'none (all pairs of u32)', ['core::mem::replace (assumed contract A3)'], 600, 14),
+    'std_string_from_and_to_vec_small': (False, '<= 4 ASCII bytes / <= 4 elements', ['String: From<&str> (assumption A6), <[T]>::to_vec (assumption A8)'], 1200, 14),
     'metatype_new_identity': (True, 'none (fixed pool of types, no symbolic input)', ['src/meta_type.rs MetaType::new / type_id / is_phantom'], 600, 14),
 }
 
